@@ -3,7 +3,8 @@ Model of citation resolution: `BibliographyData._expand_wildcard_citations`,
 `_get_crossreferenced_citations`, `add_extra_citations` (pybtex/database/__init__.py),
 `Interpreter.command_read` / `remove_missing_citations` (pybtex/bibtex/interpreter.py) and
 `BaseStyle.format_bibliography` (pybtex/style/formatting/__init__.py, with the repair
-proposed_fixes/C05-1: a cited key that is not in the database is reported, not a `KeyError`).
+proposed_fixes/C05-1: a cited key that is not in the database is reported and left out by a
+`remove_missing_citations` step, as in the BibTeX engine, instead of raising `KeyError`).
 
 The generators of the Python code are run to completion (`list(...)`), so each becomes a
 function returning the yielded list; `report_error` calls are collected next to it in order.
@@ -82,15 +83,18 @@ def removeMissing (db : BibData) : List Str → List Str × List Report
     let rr := removeMissing db r
     if db.entries.contains c then (c :: rr.1, rr.2) else (rr.1, .missingEntry c :: rr.2)
 
-/-- `format_bibliography` (repaired): `bib_data.entries[key]` for every citation, a missing key is
-reported and left out. -/
-def lookupCited (db : BibData) : List Str → List Entry × List Report
-  | [] => ([], [])
+/-- `BaseStyle.remove_missing_citations` (added by the repair C05-1, same shape as the
+interpreter's): a cited key that is not in the database is reported and left out. -/
+def removeMissingPy (db : BibData) (citations : List Str) : List Str × List Report :=
+  removeMissing db citations
+
+/-- `[bib_data.entries[key] for key in citations]`; `none` = `KeyError`. -/
+def lookupAll (db : BibData) : List Str → Option (List Entry)
+  | [] => some []
   | c :: r =>
-    let rr := lookupCited db r
     match db.entries.getItem c with
-    | some e => (e :: rr.1, rr.2)
-    | none => (rr.1, .missingEntry c :: rr.2)
+    | none => none
+    | some e => (lookupAll db r).map (e :: ·)
 
 end BibData
 
@@ -111,13 +115,16 @@ def bibtexEngine (file : List (Str × Entry)) (citations : List Str) (minCrossre
     some ⟨b.1, rep0 ++ a.2 ++ b.2⟩
 
 /-- Python engine, `PybtexEngine.format_from_files` → `format_bibliography`: filtered read,
-`add_extra_citations`, entry lookup; the `\bibitem` key is `entry.key` (style `unsrt` keeps the order). -/
+`add_extra_citations`, `remove_missing_citations`, entry lookup; the `\bibitem` key is
+`entry.key` (style `unsrt` keeps the order).  `none` = uncaught `KeyError`. -/
 def pythonEngine (file : List (Str × Entry)) (citations : List Str) (minCrossrefs : Int) : Option EngineOut :=
   match BibData.readFile (some citations) file with
   | none => none
   | some (db, rep0) =>
     let a := db.addExtraCitations citations minCrossrefs
-    let b := db.lookupCited a.1
-    some ⟨b.1.map (·.key), rep0 ++ a.2 ++ b.2⟩
+    let b := db.removeMissingPy a.1
+    match db.lookupAll b.1 with
+    | none => none
+    | some es => some ⟨es.map (·.key), rep0 ++ a.2 ++ b.2⟩
 
 end Pybtex
